@@ -1,6 +1,8 @@
 import PyaModel.Spec.Flow
 /-! Line protocol driver for C09.
-in : one skeleton per line, tokens separated by blanks:
+in : one skeleton per line, tokens separated by blanks; optional first token = scope kind of its variables:
+       k:l (local, default)  k:p:<d0> (parameter with literal d0)  k:g:<d0> (global)  k:n:<d0> (nonlocal)
+     then:
        a:<v>:<d>  u:<v>:<u>  c  ret  rs  br:<j>  co:<j>
        if [ B ] [ B ]     wh:<always> [ B ] [ B ]     for [ B ] [ B ]     with:<sup> [ B ]
        try [ B ] { [ H ] … } [ E ] nofin | try [ B ] { … } [ E ] fin [ F ]
@@ -116,24 +118,42 @@ def sameSet (a b : List Node) : Bool := a.all b.contains && b.all a.contains
 
 def dedupNat (l : List Nat) : List Nat := l.foldl (fun acc v => if acc.contains v then acc else acc ++ [v]) []
 
+def parseKind (t : String) : Option ScopeKind :=
+  match t.splitOn ":" with
+  | ["k", "l"] => some .loc
+  | ["k", "p", d] => (natOf d).map .param
+  | ["k", "g", d] => (natOf d).map .glob
+  | ["k", "n", d] => (natOf d).map .nonloc
+  | _ => none
+
 def handle (line : String) : String :=
   let ts := (line.splitOn " ").filter (· != "")
+  -- optional first token: the scope kind of every variable of the skeleton (default: local)
+  let (k, ts) := match ts with
+    | t :: r => match parseKind t with
+      | some k => (k, r)
+      | none => (ScopeKind.loc, ts)
+    | [] => (ScopeKind.loc, ts)
   match pBlock ts [] with
   | some (p, []) =>
     let us := (usesB p).foldl (fun acc (uv : Nat × Nat) => if acc.any (·.1 == uv.1) then acc else acc ++ [uv]) []
     -- one analysis per variable
     let vars := dedupNat (us.map (·.2))
     let perVar := vars.map fun v =>
-      let st := analyse p v
-      let c := collect p v
-      (v, c.u2d, st.out, (flowBlock false v p [none]).uses, (flowBlock true v p [none]).uses)
+      let pk := match k with
+        | .param d0 => Block.cons (.assign v d0) p
+        | _ => p
+      let st := analyse pk v
+      let c := collect pk v
+      (v, c.u2d, st.out, (flowBlock false v p (entryOf false k p v)).uses, (flowBlock true v p (entryOf true k p v)).uses)
     let find (v : Nat) := (perVar.find? (·.1 == v)).getD (v, [], [], [], [])
     let m := us.map fun (u, v) =>
       let (_, u2d, out, _, _) := find v
-      let ds := match lookup u u2d with | some ds => ds | none => [none]
+      let raw := match lookup u u2d with | some ds => ds | none => [none]
       -- the checking phase must read exactly what the collecting phase stored (all visits of the use)
       let outs := (out.filter (·.1 = u)).map (·.2)
-      let consistent := !outs.isEmpty && outs.all fun o => sameSet (o.getD [none]) ds
+      let consistent := !outs.isEmpty && outs.all fun o => sameSet (o.getD [none]) raw
+      let ds := reportedK k p v u
       s!"{u}={showSet ds}!{showDiag (diagOf ds)}{if consistent then "" else "?phase"}"
     let s := us.map fun (u, v) =>
       let (_, _, _, su, _) := find v
